@@ -57,3 +57,35 @@ Proof. intro H. unfold heis_step. rewrite !bonds_of_app, bonds_of_fields by exac
   destruct g; try congruence; rewrite ?bonds_of_map_same, ?bonds_of_map_other by congruence; cbn [app]; rewrite ?app_nil_r; reflexivity. Qed.
 Theorem heis_couplings_cover_chain L g : g <> HRz -> Permutation (bonds_of g (heis_step L false)) (chain_bonds L).
 Proof. intro H. rewrite heis_bonds by exact H. apply ising_bonds_cover_chain. Qed.
+
+(* Fermi-Hubbard sub-step: the hopping block visits every chain bond exactly once (even bonds first, then odd bonds) *)
+Lemma fh_up_even L j : j + 1 < L -> flat_map (fun g => match g with FXX a b => if a <? L then [(b, a)] else [] | _ => [] end) (fh_bond L j) = [(j, j + 1)].
+Proof. intro H. unfold fh_bond. cbn [flat_map app].
+  destruct (Nat.ltb_spec (j + 1) L) as [H1|H1]; [|lia]. destruct (Nat.ltb_spec (L + j + 1) L) as [H2|H2]; [lia|]. reflexivity. Qed.
+Lemma fh_up_xx_split L : fh_up_xx L =
+  filter (fun b => Nat.even (fst b)) (chain_bonds L) ++ filter (fun b => negb (Nat.even (fst b))) (chain_bonds L).
+Proof. unfold fh_up_xx, fh_hop, chain_bonds. rewrite flat_map_app. f_equal.
+  - assert (E : forall l, (forall j, In j l -> j + 1 < L) ->
+      flat_map (fun g => match g with FXX a b => if a <? L then [(b, a)] else [] | _ => [] end) (flat_map (fun j => if Nat.even j then fh_bond L j else []) l)
+      = filter (fun b : nat * nat => Nat.even (fst b)) (map (fun i => (i, i + 1)) l)).
+    { induction l as [|j l IH]; intro Hl; [reflexivity|]. cbn [flat_map map filter fst]. rewrite flat_map_app.
+      rewrite IH by (intros x Hx; apply Hl; right; exact Hx). destruct (Nat.even j) eqn:Ej; [rewrite fh_up_even by (apply Hl; left; reflexivity)|]; reflexivity. }
+    apply E. intros j Hj. apply in_seq in Hj. lia.
+  - assert (E : forall l, (forall j, In j l -> j + 1 < L) ->
+      flat_map (fun g => match g with FXX a b => if a <? L then [(b, a)] else [] | _ => [] end) (flat_map (fun j => if Nat.even j then [] else fh_bond L j) l)
+      = filter (fun b : nat * nat => negb (Nat.even (fst b))) (map (fun i => (i, i + 1)) l)).
+    { induction l as [|j l IH]; intro Hl; [reflexivity|]. cbn [flat_map map filter fst]. rewrite flat_map_app.
+      rewrite IH by (intros x Hx; apply Hl; right; exact Hx). destruct (Nat.even j) eqn:Ej; cbn [negb]; [|rewrite fh_up_even by (apply Hl; left; reflexivity)]; reflexivity. }
+    apply E. intros j Hj. apply in_seq in Hj. lia. Qed.
+Lemma filter_partition_perm {A} (f : A -> bool) l : Permutation (filter f l ++ filter (fun x => negb (f x)) l) l.
+Proof. induction l as [|x l IH]; [constructor|]. cbn [filter]. destruct (f x); cbn [negb app].
+  - constructor. exact IH.
+  - eapply Permutation_trans; [apply Permutation_sym, Permutation_middle|]. constructor. exact IH. Qed.
+Theorem fh_hopping_covers_chain L : Permutation (fh_up_xx L) (chain_bonds L).
+Proof. rewrite fh_up_xx_split. apply filter_partition_perm. Qed.
+(* the sub-step is half - half - full - half - half: the angle classes read the same backwards (symmetric splitting) *)
+Theorem fh_step_symmetric L : map fst (rev (fh_step L)) = map fst (fh_step L).
+Proof. unfold fh_step. rewrite !rev_app_distr, !map_app, !map_rev, !map_map. cbn [fst].
+  assert (C : forall (a : fhangle) (l : list fhgate), rev (map (fun _ => a) l) = map (fun _ => a) l).
+  { intros a l. induction l as [|x l IH]; [reflexivity|]. cbn [map rev]. rewrite IH. clear IH. induction l as [|y l IH]; [reflexivity|]. cbn [map app]. rewrite IH. reflexivity. }
+  rewrite !C. rewrite <- !app_assoc. reflexivity. Qed.
